@@ -186,6 +186,9 @@ var c19Faults = []struct {
 	{"unknown-command", "{/fooo}"},
 	{"unknown-symbol", "{1 ! 2}"},
 	{"bad-number", "{08}"},
+	{"quoted-expr-data", "{call .zz data=\"$x +\"/}"},
+	{"quoted-expr-value", "{call .zz}{param k value=\"(1\"/}{/call}"},
+	{"quoted-expr-css", "{css $x +, c}"},
 	{"unterminated-comment", "/* never closed"},
 	{"unterminated-tag", "{if $x"},
 }
